@@ -377,6 +377,9 @@ def _c01():
         leg("deque-grow", "c01_deque", (3, 4), {"owner": "SSG", "prefill": 63, "presteal": 1, "thieves": 1, "steals": 2}, what="spawn grows (relocates) the pool while a thief is active"),
         leg("deque-empty", "c01_deque", (3, 4), {"owner": "GSG", "prefill": 1, "thieves": 1, "steals": 2}, what="pop of the last task vs steal, then respawn"),
     ]
+    L.append(leg("deque-seq6", "c01_deqseq", (0, 0), {"depth": 6}, flags=(), what="single thread, every sequence of length 1..6 over {spawn with isolation tag 0/1/2, get_task with isolation 0/1/2, steal_task with isolation 0/1} on one real arena_slot: skipped tasks, holes, restored bounds; nothing lost / handed out twice / handed to a non-matching taker, nothing refused while a matching task is in the pool", tiers=("quick",)))
+    L.append(leg("deque-seq7", "c01_deqseq", (0, 0), {"depth": 7}, flags=(), what="same, every sequence of length 1..7", tiers=("thorough",), weight=2.0))
+    L.append(leg("deque-seq6-pre", "c01_deqseq", (0, 0), {"depth": 6, "pre": 6}, flags=(), what="same sequences on a pool that already holds three untagged tasks and has an advanced head"))
     for name, prm in [("tie", {"owner": "SG", "thieves": 2, "steals": 1}), ("basic", {"owner": "SSGSGG", "thieves": 1, "steals": 2}), ("compact", {"owner": "SSSSSSG", "prefill": 60, "presteal": 50, "thieves": 1, "steals": 2}),
                       ("grow", {"owner": "SSG", "prefill": 63, "presteal": 1, "thieves": 1, "steals": 2}), ("empty", {"owner": "GSG", "prefill": 1, "thieves": 1, "steals": 2})]:
         L.append(leg("deque-%s-tso" % name, "c01_deque@tso", (2, 3), prm, flags=("-fp", "-tso"), what="same under x86-TSO store buffers: a non-seq_cst store may stay invisible while other threads run (owner --tail / thief ++head write-read ordering)"))
@@ -389,6 +392,9 @@ def _c01():
         L.append(leg("rt-" + k, "c01_rt", (2, 3), {"kind": k}, flags=("-fp", "-hb"), what=what))
     for k in ("tg", "pfor_aff", "enqueue"):
         L.append(leg("rt-%s-asleep" % k, "c01_rt", (2, 3), {"kind": k, "asleep": 1}, flags=("-fp", "-hb"), what="same with the worker asleep when the window opens"))
+    for ta in (1, 2, 3):
+        L.append(leg("rt-copythrow-%d" % ta, "c01_rt", (2, 3), {"kind": "copythrow", "throwat": ta}, flags=("-fp", "-hb"), what="the copy of the functor into its task throws inside the %d. task_group::run; the group keeps being used: waits still cover every accepted unit" % ta))
+    L.append(leg("rt-copythrow-defer", "c01_rt", (2, 3), {"kind": "copythrow", "throwat": 2, "defer": 1}, flags=("-fp", "-hb"), what="same, the failing call is task_group::defer"))
     L.append(leg("rt-tg-P3", "c01_rt", (1, 2), {"kind": "nested", "P": 3}, flags=("-fp", "-hb"), what="two workers", weight=2.0))
     L.append(leg("rt-ext_run", "c01_rt", (1, 2), {"kind": "ext_run"}, flags=("-fp", "-hb"), what="two external threads run() into one group while it is waited for (reference vertex 0<->1)", weight=3.0))
     L.append(leg("rt-oversub", "c01_rt", (1, 2), {"kind": "oversub"}, flags=("-fp", "-hb"), what="three threads, two slots: delegated execute", weight=3.0))
